@@ -64,6 +64,26 @@ async def main():
             if t is not asyncio.current_task():
                 t.cancel()
         await asyncio.sleep(0)
+        # a task cancelled while it closes a connection (the watchdog cancelling itself at CLOSING) ends cancelled, with the connection CLOSED
+        client = make_client(tmp)
+        sc = wire_connection(client.network.server_connection)
+
+        async def wait_closed():
+            await asyncio.sleep(3600)
+        sc._writer.wait_closed = wait_closed
+
+        async def closer():
+            await sc.disconnect(CloseReason.EOF)
+            await asyncio.sleep(3600)        # what the cancelled task would go on doing
+        task = asyncio.ensure_future(closer())
+        await asyncio.sleep(0.01)
+        task.cancel()
+        await asyncio.sleep(0.05)
+        survived = not task.done()
+        task.cancel()
+        if survived or sc.state != ConnectionState.CLOSED:
+            return True, (f'a task cancelled inside disconnect() {"keeps running" if survived else "stopped"} (connection {sc.state.name}): '
+                          'the cancelled reconnect watchdog goes on reconnecting, also after stop()'), {'scenario': 'cancel-inside-disconnect'}
         # stop() is final: unrequested loss with auto-reconnect, then stop()
         client = make_client(tmp, reconnect=True)
         net = client.network
@@ -79,11 +99,10 @@ async def main():
             await asyncio.sleep(3600)
         net.create_peer_connection = hang
         net.send_server_messages = AsyncMock()
-        await client.distributed_network._on_potential_parents(
-            M.PotentialParents.Response(entries=[M.PotentialParent('pp', '1.2.3.4', 5)] if hasattr(M, 'PotentialParent') else []), sc) \
-            if False else None
         from aioslsk.protocol.primitives import PotentialParent
+        # the server repeats the message while a parent is searched: two batches of pending connects
         await client.distributed_network._on_potential_parents(M.PotentialParents.Response(entries=[PotentialParent('pp', '1.2.3.4', 5)]), sc)
+        await client.distributed_network._on_potential_parents(M.PotentialParents.Response(entries=[PotentialParent('pq', '1.2.3.5', 6)]), sc)
         client.settings.searches.send.request_timeout = 60
         await client.searches.search('query')
         before = {t for t in asyncio.all_tasks()}
@@ -95,7 +114,7 @@ async def main():
             if t is not me:
                 t.cancel()
         if left:
-            return True, f'tasks started by the library still pending after stop() returned: {left}', {'scenario': 'loss(READ_ERROR) with auto-reconnect, potential parent, search with timeout, stop()'}
+            return True, f'tasks started by the library still pending after stop() returned: {left}', {'scenario': 'loss(READ_ERROR) with auto-reconnect, two PotentialParents messages, search with timeout, stop()'}
     return False, '', None
 
 c, what, inp = run(main(), timeout=60)
